@@ -11,7 +11,7 @@ git -C "$wt" apply "$seed/patch.diff" || echo "PATCH DID NOT APPLY"
 rsync -a --exclude .git --exclude scratch --exclude replays /verif/ "$vc"/
 for id in "$@"; do
   echo "== $id on $(basename $seed)"
-  (cd "$vc" && VERIF_REPO="$wt" timeout 1500 ./check "$id" --tier "${TIER:-quick}" 2>&1 | grep -E "^(VIOLATION|OK|KNOWN-FINDING|Traceback)" | cut -c1-220)
+  (cd "$vc" && VERIF_REPO="$wt" timeout 3600 ./check "$id" --tier "${TIER:-quick}" 2>&1 | grep -E "^(VIOLATION|OK|KNOWN-FINDING|Traceback)" | cut -c1-220)
   echo "rc=$?"
   ls "$vc"/replays 2>/dev/null | head -3
 done
